@@ -1,7 +1,9 @@
 """C17 - every example of the API document is sent, verbatim, in the examples phase.
 
 spec/Examples.tla enumerates example-placement descriptors (operation = parameters + request bodies, each with a schema and
-the examples attached at the parameter / media-type object or inside the schema).  Each descriptor becomes a real OpenAPI
+the examples attached at the parameter / media-type object or inside the schema - including schemas in which `anyOf` and
+`oneOf` stand side by side, placements "anyOf+oneOf" / "property-anyOf+oneOf": `_walk` follows a branch step by its own
+keyword, so both lists are written into the same schema object).  Each descriptor becomes a real OpenAPI
 2.0 / 3.0 operation and is observed in two ways:
   (i)  fast path, every descriptor: the real `add_examples` (which calls `operation.get_strategies_from_examples()` and
        `generate_one`) on a dummy test; the attached explicit examples are the Cases the phase would send;
